@@ -125,8 +125,37 @@ def judge(ck, cases, codes, stats):
                 if reported < 3:
                     ck.violation(dict(replay, finding=fid, note="failing input satisfies the signature of %s which is not an open finding" % fid))
                 reported += 1
-    for fid, what in sorted(stats["first"].items()):
-        ck.known_finding(fid, "%s (%d failing inputs in this run)" % (what, stats["by_finding"][fid]))
+
+
+def run_e2e(ck, binp, stats):
+    """black-box part: one ts-server built from the working tree, /write then /query?epoch=ns"""
+    server = ck.go_build_repo("./app/ts-server", "ts-server")
+    if not server:
+        return []
+    n = 40 if ck.tier == "quick" else 400
+    wd = os.path.join(ck.work, "e2e")
+    os.makedirs(wd, exist_ok=True)
+    tmpl = os.path.join(ck.repo, "config", "openGemini.singlenode.conf")
+    rc, out = ck.run([binp, "e2e", server, tmpl, wd, str(n)], timeout=1500)
+    cases = [json.loads(l) for l in out.splitlines() if l.startswith('{"e2e"')]
+    done = re.search(r'\{"e2e_done":(\d+)\}', out)
+    if rc != 0 or not done or int(done.group(1)) != len(cases) or len(cases) != n:
+        ck.broken.append("harness c06 e2e failed rc=%d cases=%d: %s" % (rc, len(cases), out[-600:]))
+        return cases
+    reported = 0
+    for c in cases:
+        for o in c["oracle"]:
+            fid = o["id"]
+            replay = {"kind": "direct-oracle-e2e", "class": c["class"], "sub": c.get("sub"), "precision": c["prec"], "text": c["text"],
+                      "in": c["text"].encode("utf-8", "surrogateescape").hex(), "http_status": c["status"], "query_answer": c["got"], "oracle": c["oracle"]}
+            if fid != "none" and ck.match_finding(fid):
+                stats["by_finding"][fid] += 1
+                stats["first"].setdefault(fid, "%s [input %r, HTTP %s]" % (o["what"], c["text"][:100], c["status"]))
+            else:
+                if reported < 3:
+                    ck.violation(dict(replay, finding=fid))
+                reported += 1
+    return cases
 
 
 def main(ck):
@@ -139,6 +168,7 @@ def main(ck):
         "strings.TrimSpace around the timestamp is modelled for ASCII white space only",
     ]
     ck.cov["trusted_base"] = ["Coq 8.16.1 kernel + vm_compute (cases evaluation, witnesses, Examples)",
+                              "ts-server HTTP API (/write, /query?epoch=ns) as the end-to-end observation interface",
                               "Go harness cmd/c06 (generators, canonicaliser, direct oracle incl. strconv.ParseFloat), python driver props/C06/run.py",
                               "Section hypothesis dec2f_correct (premise of the float theorems)"]
     ck.coq_audit(["C06"])
@@ -167,10 +197,15 @@ def main(ck):
             if any(o["id"] == "none" for o in c["oracle"]):
                 ck.violation({"kind": "direct-oracle", "text": c["text"], "in": c["in"], "oracle": c["oracle"]})
                 break
+    e2e = run_e2e(ck, binp, stats)
+    for fid, what in sorted(stats["first"].items()):
+        ck.known_finding(fid, "%s (%d failing inputs in this run)" % (what, stats["by_finding"][fid]))
     # coverage
     hist = collections.Counter((c["class"] + ("/" + c["sub"] if c.get("sub") and c["class"] != "corpus" else "")) for c in cases)
     nontriv = set(c["in"] for c in cases if c["nontrivial"])
-    ck.cov["evaluations"] = len(cases)
+    ck.cov["evaluations"] = len(cases) + len(e2e)
+    ck.cov["e2e_requests"] = len(e2e)
+    ck.cov["e2e_histogram"] = dict(collections.Counter("%s/%s/%s" % (c["class"], c.get("sub", ""), c["status"]) for c in e2e))
     ck.cov["distinct_nontrivial"] = len(nontriv)
     ck.cov["rule"] = ("request blocks from one PRNG (valid lines in every escape form and numeric spelling, malformed classes, batches mixing "
                       "valid/invalid/blank/comment lines, byte-mutated lines) + corpus; non-trivial = contains an escape or quote, an integer "
